@@ -546,6 +546,40 @@ def iter_step(sim, st, it):
         if y is None:
             return Opaque("Zip", (a2, b2)), None
         return Opaque("Zip", (a2, b2)), Struct(tuple_ty([None, None]), (x, y))
+    if it.kind == "Flatten":
+        inner, cur = it.data
+        while True:
+            if cur is not None:
+                cur2, x = step_any(sim, st, cur)
+                if x is not None:
+                    return Opaque("Flatten", (inner, cur2)), x
+                cur = None
+            inner, item = step_any(sim, st, inner)
+            if item is None:
+                return Opaque("Flatten", (inner, None)), None
+            cur = as_iterator(sim, st, item)
+    if it.kind == "TakeWhile":
+        inner, f, done = it.data
+        if done:
+            return it, None
+        inner2, item = step_any(sim, st, inner)
+        if item is None:
+            return Opaque("TakeWhile", (inner2, f, True)), None
+        oid = st.new_obj("tw_item", item)
+        if sim.decide_bool(st, sim.call_sync(st, f, [Ref(Ptr(oid))])):
+            return Opaque("TakeWhile", (inner2, f, False)), item
+        return Opaque("TakeWhile", (inner2, f, True)), None
+    if it.kind == "SkipWhile":
+        inner, f, started = it.data
+        while True:
+            inner, item = step_any(sim, st, inner)
+            if item is None:
+                return Opaque("SkipWhile", (inner, f, True)), None
+            if started:
+                return Opaque("SkipWhile", (inner, f, True)), item
+            oid = st.new_obj("sw_item", item)
+            if not sim.decide_bool(st, sim.call_sync(st, f, [Ref(Ptr(oid))])):
+                return Opaque("SkipWhile", (inner, f, True)), item
     if it.kind == "Chain":
         a, b = it.data
         if a is not None:
@@ -560,6 +594,28 @@ def iter_step(sim, st, it):
 
 def range_as_iter(sim, st, it):
     return it
+
+
+def as_iterator(sim, st, v):
+    """IntoIterator of an abstract value: Option -> 0/1 items, arrays -> their elements, iterators -> themselves."""
+    v = sim.resolve(st, v)
+    if isinstance(v, Ref):
+        tgt = sim.read(st, v.ptr)
+        tgt = sim.resolve(st, tgt)
+        if isinstance(tgt, Array):
+            return Opaque("SliceIter", (v.ptr, 0, len(tgt.elems), bool(v.mut)))
+        if isinstance(tgt, (Enum, Sym)) and tgt.ty is not None and is_adt(tgt.ty, "Option"):
+            e = sim.force_variant(st, tgt)
+            return Opaque("ArrayIntoIter", ((Ref(v.ptr.ext(("v", e.vidx)).ext(("f", 0)), v.mut),) if e.vname == "Some" else (), 0))
+        raise S.Unsupported("into_iter of reference to %r" % (tgt,))
+    if isinstance(v, Array):
+        return Opaque("ArrayIntoIter", (tuple(v.elems), 0))
+    if isinstance(v, (Enum, Sym)) and getattr(v, "ty", None) is not None and is_adt(v.ty, "Option"):
+        e = sim.force_variant(st, v)
+        return Opaque("ArrayIntoIter", ((e.fields[0],) if e.vname == "Some" else (), 0))
+    if isinstance(v, Opaque) or (isinstance(v, Struct) and v.ty and is_adt(v.ty, "Range")):
+        return v
+    raise S.Unsupported("into_iter of %r" % (v,))
 
 
 def step_any(sim, st, it):
@@ -584,7 +640,7 @@ def drain(sim, st, it, limit=64):
     raise S.Unsupported("iterator longer than %d items" % limit)
 
 
-@pattern(r"^<std::(slice::Iter(Mut)?<'a, T>|array::IntoIter<T, N>|iter::(Take|Skip|Enumerate|Rev|Copied|Cloned)<I>|iter::(Map|Filter|FilterMap)<I, [A-Z]\w*>|iter::(Zip|Chain)<A, B>|collections::vec_deque::Iter(Mut)?<'a, T>|vec::IntoIter<T, A>) as std::iter::Iterator>::next$")
+@pattern(r"^<std::(slice::Iter(Mut)?<'a, T>|array::IntoIter<T, N>|iter::(Take|Skip|Enumerate|Rev|Copied|Cloned|Flatten)<I>|iter::Once<T>|option::IntoIter<A>|option::Iter<'a, A>|iter::(Map|Filter|FilterMap|TakeWhile|SkipWhile)<I, [A-Z]\w*>|iter::FlatMap<I, U, F>|iter::(Zip|Chain)<A, B>|collections::vec_deque::Iter(Mut)?<'a, T>|vec::IntoIter<T, A>) as std::iter::Iterator>::next$")
 def m_slice_iter_next(sim, st, c):
     p = sim.deref_value(st, c["args"][0])
     it = sim.read(st, p)
@@ -1472,7 +1528,112 @@ def m_iter_zip(sim, st, c):
 
 @model("std::iter::Iterator::chain")
 def m_iter_chain(sim, st, c):
-    return Opaque("Chain", (c["args"][0], c["args"][1]))
+    return Opaque("Chain", (c["args"][0], as_iterator(sim, st, c["args"][1])))
+
+
+@model("std::iter::once")
+def m_iter_once(sim, st, c):
+    return Opaque("ArrayIntoIter", ((c["args"][0],), 0))
+
+
+@model("std::iter::empty")
+def m_iter_empty(sim, st, c):
+    return Opaque("ArrayIntoIter", ((), 0))
+
+
+@model("std::iter::Iterator::flatten")
+def m_iter_flatten(sim, st, c):
+    return Opaque("Flatten", (c["args"][0], None))
+
+
+@model("std::iter::Iterator::flat_map")
+def m_iter_flat_map(sim, st, c):
+    return Opaque("Flatten", (Opaque("Map", (c["args"][0], c["args"][1])), None))
+
+
+@model("std::iter::Iterator::take_while")
+def m_iter_take_while(sim, st, c):
+    return Opaque("TakeWhile", (c["args"][0], c["args"][1], False))
+
+
+@model("std::iter::Iterator::skip_while")
+def m_iter_skip_while(sim, st, c):
+    return Opaque("SkipWhile", (c["args"][0], c["args"][1], False))
+
+
+@model("std::iter::Iterator::nth")
+def m_iter_nth(sim, st, c):
+    p = sim.deref_value(st, c["args"][0])
+    it = sim.read(st, p)
+    k = const_usize(sim, st, c["args"][1], "nth")
+    item = None
+    for _ in range(k + 1):
+        it, item = step_any(sim, st, it)
+        if item is None:
+            break
+    sim.write(st, p, it)
+    return opt(sim, c["ret_ty"], item) if item is not None else opt(sim, c["ret_ty"])
+
+
+@model("std::iter::Iterator::position")
+def m_iter_position(sim, st, c):
+    p = sim.deref_value(st, c["args"][0])
+    it = sim.read(st, p)
+    i = 0
+    while True:
+        it, item = step_any(sim, st, it)
+        if item is None:
+            sim.write(st, p, it)
+            return opt(sim, c["ret_ty"])
+        if sim.decide_bool(st, sim.call_sync(st, c["args"][1], [item])):
+            sim.write(st, p, it)
+            return opt(sim, c["ret_ty"], Const(i, prim("usize")))
+        i += 1
+        if i > 64:
+            raise S.Unsupported("position over a long iterator")
+
+
+@pattern(r"^<std::option::Option<T> as std::iter::IntoIterator>::into_iter$|^std::option::Option::<T>::iter$|^<&'a std::option::Option<T> as std::iter::IntoIterator>::into_iter$")
+def m_opt_into_iter(sim, st, c):
+    return as_iterator(sim, st, c["args"][0])
+
+
+@model("std::option::Option::<std::result::Result<T, E>>::transpose")
+def m_opt_res_transpose(sim, st, c):
+    v = sim.force_variant(st, c["args"][0])
+    oty = c["ret_ty"]["args"][0]
+    if v.vname == "None":
+        return sim.mk_enum(c["ret_ty"], "Ok", [sim.mk_enum(oty, "None")])
+    r = sim.force_variant(st, v.fields[0])
+    if r.vname == "Ok":
+        return sim.mk_enum(c["ret_ty"], "Ok", [sim.mk_enum(oty, "Some", [r.fields[0]])])
+    return sim.mk_enum(c["ret_ty"], "Err", [r.fields[0]])
+
+
+@model("std::result::Result::<std::option::Option<T>, E>::transpose")
+def m_res_opt_transpose(sim, st, c):
+    v = sim.force_variant(st, c["args"][0])
+    rty = c["ret_ty"]["args"][0]
+    if v.vname == "Err":
+        return sim.mk_enum(c["ret_ty"], "Some", [sim.mk_enum(rty, "Err", [v.fields[0]])])
+    o = sim.force_variant(st, v.fields[0])
+    if o.vname == "None":
+        return sim.mk_enum(c["ret_ty"], "None")
+    return sim.mk_enum(c["ret_ty"], "Some", [sim.mk_enum(rty, "Ok", [o.fields[0]])])
+
+
+@pattern(r"^(core|std)::bool::<impl bool>::then$")
+def m_bool_then(sim, st, c):
+    if sim.decide_bool(st, c["args"][0]):
+        return sim.mk_enum(c["ret_ty"], "Some", [sim.call_sync(st, c["args"][1], [])])
+    return sim.mk_enum(c["ret_ty"], "None")
+
+
+@pattern(r"^(core|std)::bool::<impl bool>::then_some$")
+def m_bool_then_some(sim, st, c):
+    if sim.decide_bool(st, c["args"][0]):
+        return sim.mk_enum(c["ret_ty"], "Some", [c["args"][1]])
+    return sim.mk_enum(c["ret_ty"], "None")
 
 
 @model("std::iter::Iterator::fold")
@@ -1614,7 +1775,9 @@ def _register_iter_methods():
                      ("any", "m_iter_any_all"), ("all", "m_iter_any_all"), ("find", "m_iter_find"), ("count", "m_iter_count"), ("last", "m_iter_last"),
                      ("collect", "m_iter_collect"), ("map", "m_iter_map"), ("filter", "m_iter_filter"), ("filter_map", "m_iter_filter_map"),
                      ("zip", "m_iter_zip"), ("chain", "m_iter_chain"), ("take", "m_iter_take"), ("skip", "m_iter_skip"), ("enumerate", "m_iter_enumerate"),
-                     ("rev", "m_iter_rev"), ("copied", "m_iter_copied"), ("cloned", "m_iter_copied"), ("next", "m_slice_iter_next")):
+                     ("rev", "m_iter_rev"), ("copied", "m_iter_copied"), ("cloned", "m_iter_copied"), ("next", "m_slice_iter_next"),
+                     ("flatten", "m_iter_flatten"), ("flat_map", "m_iter_flat_map"), ("take_while", "m_iter_take_while"), ("skip_while", "m_iter_skip_while"),
+                     ("nth", "m_iter_nth"), ("position", "m_iter_position")):
         ITER_METHODS[name] = g[fn]
 
 
